@@ -72,3 +72,52 @@ pub fn share_x(b: &[u8]) -> Option<Vec<u8>> {
   }
   Some(f.s[..24].to_vec())
 }
+
+fn elem_ok(b: &[u8]) -> bool {
+  let lo = u128::from_le_bytes(b[..16].try_into().unwrap());
+  let hi = u64::from_le_bytes(b[16..24].try_into().unwrap());
+  hi == 0 || (hi == 1 && lo < 12451)
+}
+
+/// independent parser of the Shamir share layout x | y_1 | ... | y_k (24 bytes each): canonical form
+pub fn indep_sharks(b: &[u8]) -> Option<Vec<u8>> {
+  if b.len() < 24 {
+    return None;
+  }
+  let k = b.len() / 24;
+  for i in 0..k {
+    if !elem_ok(&b[24 * i..24 * i + 24]) {
+      return None;
+    }
+  }
+  Some(b[..24 * k].to_vec())
+}
+
+/// independent parser of threshold | len,S | len,C | len,D | J[64]: canonical re-encoding
+pub fn indep_share(b: &[u8]) -> Option<Vec<u8>> {
+  let f = split_share(b)?;
+  let s = indep_sharks(&f.s)?;
+  Some(join_share(&ShareFields { a: f.a, s, c: f.c, d: f.d, j: f.j }))
+}
+
+/// independent parser of len,ciphertext | len,share | len,tag (trailing bytes ignored)
+pub fn indep_message(b: &[u8]) -> Option<Vec<u8>> {
+  let (c, s, t) = split_message(b)?;
+  let s = indep_share(&s)?;
+  Some(join_message(&c, &s, &t))
+}
+
+/// offsets of the 4-byte length fields of a share encoding (S, C, D)
+pub fn share_len_offsets(b: &[u8]) -> Vec<usize> {
+  let mut v = vec![];
+  let mut off = 4;
+  for _ in 0..3 {
+    if b.len() < off + 4 {
+      break;
+    }
+    v.push(off);
+    let len = u32::from_le_bytes([b[off], b[off + 1], b[off + 2], b[off + 3]]) as usize;
+    off += 4 + len;
+  }
+  v
+}
